@@ -3,7 +3,7 @@ usage: try_refactor.py <base_commit> <patch_dir>...   (each dir holds patch.diff
 Creates a scratch worktree of /repo at <base_commit>, runs every check with --root on it
 before and after each patch and prints lines that are NEW with the patch."""
 import os, re, subprocess, sys, tempfile, shutil
-base = sys.argv[1]; dirs = sys.argv[2:]
+base = sys.argv[1]; dirs = [os.path.abspath(d) for d in sys.argv[2:]]
 def run(cmd, **kw): return subprocess.run(cmd, shell=True, capture_output=True, text=True, **kw)
 wt = tempfile.mkdtemp(prefix='rf_', dir='/tmp'); os.rmdir(wt)
 assert run(f'git -C /repo worktree add -q --detach {wt} {base}').returncode == 0
